@@ -48,4 +48,7 @@ def units(ctx):
            for c in colls.wrapper_contracts() if 'C14' in c.serves]
     us += [contract_unit(c, world_setup=colls.setup_mem)
            for c in colls.memorize_contracts()]
+    from contracts import evalglue as _eg
+    from vlib.pyvc.unit import contract_unit as _cu
+    us += [_cu(c, world_setup=_eg.setup_nodes) for c in _eg.node_contracts()]
     return us
